@@ -26,3 +26,37 @@ def pool_1qubit():
     p["tester_states"] = [gen("state", n, c) for n in ("x0", "y0", "z0", "z1")]
     p["tester_povms"] = [gen("povm", n, c) for n in ("x", "y", "z")]
     return p
+
+
+@functools.lru_cache(maxsize=None)
+def csys_mixed(dims, ids=None):
+    """Composite system with elemental systems of the given dimensions (2: Pauli, 3: Gell-Mann)."""
+    from quara.objects.composite_system import CompositeSystem
+    from quara.objects.elemental_system import ElementalSystem
+    from quara.objects.matrix_basis import get_normalized_pauli_basis, get_normalized_gell_mann_basis
+    ids = ids or tuple(range(len(dims)))
+    es = []
+    for i, d in zip(ids, dims):
+        b = get_normalized_pauli_basis() if d == 2 else get_normalized_gell_mann_basis()
+        es.append(ElementalSystem(i, b))
+    return CompositeSystem(es)
+
+
+QUBIT_TESTER_STATES = ("x0", "y0", "z0", "z1")
+QUBIT_TESTER_POVMS = ("x", "y", "z")
+QUTRIT_TESTER_STATES = ("01z0", "12z0", "02z1", "01x0", "01y0", "12x0", "12y0", "02x0", "02y0")
+QUTRIT_TESTER_POVMS = ("01x3", "01y3", "z3", "12x3", "12y3", "02x3", "02y3")
+
+
+@functools.lru_cache(maxsize=None)
+def tester_states(mode="qubit"):
+    c = csys(mode, 1)
+    names = QUBIT_TESTER_STATES if mode == "qubit" else QUTRIT_TESTER_STATES
+    return [gen("state", n, c) for n in names]
+
+
+@functools.lru_cache(maxsize=None)
+def tester_povms(mode="qubit"):
+    c = csys(mode, 1)
+    names = QUBIT_TESTER_POVMS if mode == "qubit" else QUTRIT_TESTER_POVMS
+    return [gen("povm", n, c) for n in names]
